@@ -14,3 +14,7 @@ func queryEncode(param string, m restlicodec.Marshaler) (string, error) {
 	}
 	return w.Finalize(), nil
 }
+
+func queryReadRecord(q restlicodec.QueryParamsReader, required []string, f restlicodec.MapReader) error {
+	return q.ReadRecord(restlicodec.RequiredFields(required), f)
+}
